@@ -368,6 +368,7 @@ type Monitor struct {
 	AlertCh   chan *api.Alert
 	Published []*api.Metric
 	PubTimes  []time.Time
+	PubErrs   []error
 	FailPub   func(n int, m *api.Metric) error
 	npub      int
 }
@@ -387,10 +388,21 @@ func (m *Monitor) PublishMetric(ctx context.Context, mt *api.Metric) error {
 	m.Published = append(m.Published, &cp)
 	m.PubTimes = append(m.PubTimes, time.Now())
 	m.npub++
+	var err error
 	if m.FailPub != nil {
-		return m.FailPub(m.npub, &cp)
+		err = m.FailPub(m.npub, &cp)
 	}
-	return nil
+	m.PubErrs = append(m.PubErrs, err)
+	return err
+}
+
+// TakePublishedFull returns and clears publications, their times and outcomes.
+func (m *Monitor) TakePublishedFull() ([]*api.Metric, []time.Time, []error) {
+	m.mu.Lock()
+	defer m.mu.Unlock()
+	p, t, e := m.Published, m.PubTimes, m.PubErrs
+	m.Published, m.PubTimes, m.PubErrs = nil, nil, nil
+	return p, t, e
 }
 
 // Set replaces the latest metrics of a name.
@@ -423,7 +435,7 @@ func (m *Monitor) TakePublished() ([]*api.Metric, []time.Time) {
 	m.mu.Lock()
 	defer m.mu.Unlock()
 	p, t := m.Published, m.PubTimes
-	m.Published, m.PubTimes = nil, nil
+	m.Published, m.PubTimes, m.PubErrs = nil, nil, nil
 	return p, t
 }
 
@@ -452,6 +464,7 @@ type ClusterOpts struct {
 	Listen      bool
 	InformerTTL time.Duration
 	Mutate      func(cfg *ipfscluster.Config)
+	BeforeStart func(m *Monitor) // configure the fake monitor before the cluster starts publishing
 }
 
 // ClusterFixture is a real Cluster with harness components.
@@ -522,6 +535,9 @@ func NewCluster(o ClusterOpts) *ClusterFixture {
 		mon = rm
 	} else {
 		f.Mon = NewMonitor()
+		if o.BeforeStart != nil {
+			o.BeforeStart(f.Mon)
+		}
 		mon = f.Mon
 	}
 	var alloc ipfscluster.PinAllocator
